@@ -245,6 +245,7 @@ def judge_fit(ctx, case, res, model_val, stats):
     M0 = {}
     for row, per_block in occs:
         c03.occ_contrib(M0, p["n"], row, per_block, bool(kw.get("normalize_windows", True)))
+    M0.pop("maxden", None)
     exact = not (p["kind"] == "timed" and any(b["kind"] != "flat" for b in p["blocks"])) and (
         n_iter <= 1 or sum(len(t) for t in c03.tokens_of(case)) <= 24)
     S, near = em_spec(M0, occs, p["n"], n_iter, eps, exact)
